@@ -9,7 +9,7 @@ PROP = "C01"
 LEVEL = "exploration"
 RULE = ("for every message type of the corpus (matrix schema: every kind x label; seeded G-schema sets; tests/inputs) "
         "value trees in three shapes (matrix = one field, one boundary class; random; maximal) are built through the "
-        "constructor and through attribute assignment, encoded, decoded (parse and FromString), re-encoded; the oracle "
+        "constructor, through attribute assignment and by in-place mutation of lazily created containers / sub-messages, encoded, decoded (parse and FromString), re-encoded; the oracle "
         "compares neutral trees keyed by field number (values, oneof selection, None-ness, nested presence), the "
         "library's own ==, and the bytes. distinct = distinct (schema, message type, value tree) triples; the empty "
         "tree is the only trivial case.")
@@ -70,7 +70,7 @@ def carrier_sig(b, fi, v):
 
 def check_case(b, bp, ref, mi, tree, res: Result, w, rng):
     cls = b.bp_class(mi.full_name)
-    for route in ("ctor", "attr"):
+    for route in ("ctor", "attr", "inplace"):
         ww = dict(w, route=route)
         try:
             m = bp.make(mi, tree, route)
@@ -101,10 +101,10 @@ def check_case(b, bp, ref, mi, tree, res: Result, w, rng):
             res.violation("decoded-type", ["decoded-type", what], f"{mi.full_name}{p}: {what}", ww)
         d_build = diff_trees(b, mi, tree, t1)
         for d in d_build:
-            res.violation("construct-readback", diff_signature(b, d), f"{mi.full_name} built via {route} reads back differently: {d.short()}", ww)
+            res.violation("construct-readback", [route] + diff_signature(b, d), f"{mi.full_name} built via {route} reads back differently: {d.short()}", ww)
         diffs = diff_trees(b, mi, t1, t2)
         for d in diffs:
-            res.violation("roundtrip", diff_signature(b, d), f"{mi.full_name} ({route}): parse(bytes(m)) differs: {d.short()}", ww)
+            res.violation("roundtrip", [route] + diff_signature(b, d), f"{mi.full_name} ({route}): parse(bytes(m)) differs: {d.short()}", ww)
         if not diffs and not eq:
             bad = isolate(b, mi, tree, lambda t: _eq_ok(bp, cls, mi, t, route))
             for fi, v in bad or [(None, None)]:
